@@ -65,15 +65,15 @@ func yieldOf(c *ctypes.Carrier, x any, syms *[]int, idx *[]int) {
 }
 
 type c09Ctx struct {
-	b   *px.Built
-	r   *px.Runner
-	cfg *cfgref.CFG
-	g   *gen.Grammar
-	fam string
-	idx int64
-	L   int
-	st  *mc.Stats
-	out []mc.Violation
+	b       *px.Built
+	r       *px.Runner
+	cfg     *cfgref.CFG
+	g       *gen.Grammar
+	fam     string
+	idx     int64
+	L       int
+	st      *mc.Stats
+	out     []mc.Violation
 	reduced bool
 }
 
